@@ -50,8 +50,9 @@ Deliberately NOT asserted
   * effects of the CALLER mutating cell.bits / cell.refs directly, or mutating the bitarray / list it passed to the
     Cell constructor afterwards (Cell(TvmBitarray, list) keeps both by reference; that is not an operation "on slices,
     builders or copies");
-  * exception types, and whether any parse attempt / store / load raises (a raising call just leaves the pools as
-    they are; the invariant is checked all the same); arguments are compared only after calls that returned;
+  * exception types, and whether any parse attempt / store / load / derivation raises (a raising call just leaves the
+    pools as they are; the invariant is checked all the same); arguments are compared only after calls that returned.
+    Only the three construction routes must accept the (valid by construction) cells: 'create/<route>/raises/...';
   * correctness of hashes, serialisation layout, stored/loaded values, dictionary or TL-B decoding (C01-C07, C09, C17);
     the only cross-check is "the serialisation in the snapshot parses back to the same hash" (see I1);
   * that cell.copy() / slice.to_cell() produce cells equal to their source (only that sources do not change);
@@ -639,7 +640,7 @@ class _World:
                 return b.end_cell()
             ok, c = call(build)
             if not ok:
-                return None, None, None
+                return self._create_failed(op, c), None, None
             self._add_builder(b, (), ended={len(self.cells)})
             return self._add_cell(c, route, ()), None, None
         if route == 'tvm':
@@ -649,13 +650,19 @@ class _World:
                 return L.Cell(ba, list(refs))
             ok, c = call(build)
             if not ok:
-                return None, None, None
+                return self._create_failed(op, c), None, None
             return self._add_cell(c, route, (), model_bits=bits, model_refs=want_refs), None, None
         held = L.bitarray(bits)
         ok, c = call(L.Cell, held, list(refs))
         if not ok:
-            return None, None, None
+            return self._create_failed(op, c), None, None
         return self._add_cell(c, route, (), model_bits=bits, model_refs=want_refs, held=held), None, None
+
+    def _create_failed(self, op, e):
+        """the generated cells are valid (<= 1023 bits, <= 4 children, depth far below 1024): the three construction
+        routes have to accept them, otherwise nothing can be said about the cell"""
+        return Fail(f"create/{op['route']}/raises/{exc_sig(e)}",
+                    f"{self._at()}: building a cell of {_nbits(op['b'])} bits and {len(op['r'])} refs raised {e!r}")
 
     # ---- derive
     def _do_derive(self, op):
@@ -1420,6 +1427,7 @@ _GRID_SLICE_CHAINS = {
     'from_cell': [('derive', 'from_cell')],
     'copy.begin_parse': [('derive', 'copy'), ('derive_last', 'begin_parse')],
     'begin_parse.copy': [('derive', 'begin_parse'), ('sderive_last', 'copy')],
+    'begin_parse.to_cell': [('derive', 'begin_parse'), ('sderive_last', 'to_cell')],      # load from the slice afterwards
     'begin_parse.to_cell.begin_parse': [('derive', 'begin_parse'), ('sderive_last', 'to_cell'), ('derive_last', 'begin_parse')],
     'to_builder.to_slice': [('derive', 'to_builder'), ('bderive_last', 'to_slice')],
     'source-builder.to_slice': [('bderive_src', 'to_slice')],
@@ -1477,7 +1485,8 @@ def enum_grid(tier):
             {'op': 'obs', 'what': 'boc', 'c': 2, 'k': 5}, {'op': 'obs', 'what': 'order', 'c': 2, 'k': 0},
             {'op': 'obs', 'what': 'order', 'c': 0, 'k': 0}, {'op': 'obs', 'what': 'order', 'c': 2, 'k': 1},
             {'op': 'obs', 'what': 'repr_hash', 'c': 2}, {'op': 'obs', 'what': 'str', 'c': 2},
-            {'op': 'vmstack', 'items': [{'t': 'cell', 'i': 2}, {'t': 'tuple', 'items': [{'t': 'slice', 'i': 0}, {'t': 'int', 'v': '7'}]}]}]
+            {'op': 'vmstack', 'items': [{'t': 'cell', 'i': 2}, {'t': 'tuple', 'items': [{'t': 'slice', 'i': 0}, {'t': 'int', 'v': '7'}]}]},
+            {'op': 'hashmap', 'kl': 8, 'items': [[1, {'t': 'cell', 'i': 0}], [200, {'t': 'slice', 'i': 0}]], 'via': 'map_'}]
     for route in ('builder', 'tvm', 'plain'):
         for name, chain in _GRID_SLICE_CHAINS.items():
             ops, m = _grid_prog(route, chain, 's')
